@@ -131,9 +131,19 @@ def main():
                     cases.append(c)
     obs = lib.run_impl(prop, cases, per_case_timeout=getattr(mod, 'CASE_TIMEOUT', 20))
     herr = [(i, o) for i, o in enumerate(obs) if o is None or o.get('harness_error') or o.get('crash')]
-    if herr:
+    if herr and not lib.changed_sources(None):
         print('HARNESS-ERROR %s: %d cases, first: case=%s obs=%s' % (prop, len(herr), json.dumps(cases[herr[0][0]])[:300], herr[0][1]))
         return 2
+    if herr:
+        # The source text differs from the validated one and the observation code met behaviour it has no words for
+        # (an exception escaping where the unchanged tree raises none, a crash of the interpreter): the tie between model
+        # and code is broken on these cases.  They are reported as a broken correspondence (with the first such case as the
+        # replay) unless the oracle finds a failing input among the remaining cases; they are left out of K and O below.
+        broken.append('observation of the implementation failed on %d generated cases (first: %s)' % (len(herr), str(herr[0][1])[:300]))
+        herr_case = cases[herr[0][0]]
+        keep = [i for i in range(len(cases)) if i not in {j for j, _ in herr}]
+        cases = [cases[i] for i in keep]
+        obs = [obs[i] for i in keep]
     k_bad, k_err = ([], [])
     if model_ok:
         k_bad, k_err = mod.correspond(cases, obs, prop, a.tier)
@@ -169,7 +179,8 @@ def main():
         rc = 1
     elif k_bad or broken:
         i = k_bad[0] if k_bad else None
-        payload = {'property': prop, 'kind': 'broken-correspondence' if k_bad else 'broken-proof', 'seed': seed,
+        payload = {'property': prop, 'kind': 'broken-correspondence' if (k_bad or herr) else 'broken-proof', 'seed': seed,
+                   'unobservable_case': herr_case if herr else None,
                    'correspondence': getattr(mod, 'K_NAME', 'K_' + prop), 'broken': broken,
                    'n_disagreements': len(k_bad),
                    'case': cases[i] if i is not None else None, 'impl_observation': obs[i] if i is not None else None,
